@@ -17,6 +17,12 @@ def run(ctx, out):
     okb = [P.status(receipt_no=11, result_code=0), P.completion()]
     for code in range(256):
         ab, prab = P.abort(code), P.pr_abort(code)
+        if code % 4 == 1:
+            # every fourth code: the abort carries more than its result code, as the specification allows (the currency code behind
+            # 6F, a TLV container with an extended error code / text) — it still is an abort with that result code
+            extra = bytes.fromhex("0978") if code % 8 == 1 else bytes.fromhex("06041f160105")
+            ab = bytes([0x06, 0x1e, 1 + len(extra), code]) + extra
+            prab = bytes([0x06, 0x1e, 1 + len(extra), code]) + extra
         pre = [[], [P.intermediate()], [P.intermediate(), P.print_line("x")]]
         def add(calls, q, op, idx, ttid=None, cfg=None):
             cases.append((cfg or G.default_cfg(), calls, q, None, ttid))
@@ -80,7 +86,7 @@ def run(ctx, out):
         if not ok_exceptions and x not in names:
             out.oracle_failures.append({"op": o, "observed": x, "expected": " | ".join(names), "key": f"{op} code={code} " + o[:120],
                                         "what": f"{op}: terminal abort with result code 0x{code:02x} is not reported as an error identifying that code"})
-    out.rule = ("all 256 result codes x {read card, begin, commit, cancel, pending-reversal and end-of-day while going idle, configure: system info, set terminal id, initialisation, pending reversal, end-of-day} "
+    out.rule = ("all 256 result codes (every fourth abort also carrying the currency code or a TLV container behind its result code) x {read card, begin, commit, cancel, pending-reversal and end-of-day while going idle, configure: system info, set terminal id, initialisation, pending reversal, end-of-day} "
                 "x position of the abort in the reply script (at once, after intermediate status / print line / status information). The call must fail naming the code (Aborted(c), or for card reading the specification's message "
                 "for c / 'Unknown error code'), with exactly the three documented translations. implementation = model = specification, plus an explicit identification check on the implementation's results. "
                 "Also (implementation vs specification only; the model has no delays): the same with a slow terminal that lets 14 virtual seconds pass before every packet (multi-packet scripts lasting longer than the 60 s per-packet time-out)")
